@@ -91,6 +91,7 @@ def run(rep, tier):
         rep.rule(rid, txt)
     found, stats, nmods = routes.run(rep, 'C17', ['SPILL-', 'CONV-', 'FREE-name'],
                                      label_filter=lambda msg: msg.startswith('deep-nesting'))
+    rep.floor('route modules emitted', nmods, 32)
     rep.count('spill helper invocations examined', stats.get('spills', 0))
     rep.floor('spill helper invocations examined', stats.get('spills', 0), 2)
     call_graph_cycles(rep)
